@@ -122,9 +122,20 @@ fn record(a: &Args) {
             }
         }
         let hasher = case["hasher"].as_str().unwrap_or("fnv").to_string();
-        let small = case["elems"].as_str().unwrap_or("random") == "small";
+        let emode = case["elems"].as_str().unwrap_or("random").to_string();
+        let small = emode == "small";
         let base = rng.random_range(0..1000u64);
-        let r = Run { m, l, seed: rng.random::<u64>(), elems: (0..nel).map(|k| if small { base + k as u64 } else { rng.random::<u64>() }).collect() };
+        let mut elems: Vec<u64> = (0..nel).map(|k| if small { base + k as u64 } else { rng.random::<u64>() }).collect();
+        if emode == "sentinel" {
+            // extreme identifiers first (with an identity hasher these are the hash values themselves), in a random order
+            let mut pool: Vec<u64> = vec![0, u64::MAX, 1, u64::MAX - 1, 1 << 63, (1 << 63) - 1, 1 << 32, (1 << 32) - 1,
+                                          0xffff_ffff_0000_0000, 1 << 16, 255, 256];
+            for i in (1..pool.len()).rev() {
+                pool.swap(i, rng.random_range(0..=i));
+            }
+            elems = (0..nel).map(|k| if k < pool.len() { pool[k] } else { 1_000_000 + k as u64 }).collect();
+        }
+        let r = Run { m, l, seed: rng.random::<u64>(), elems };
         // pair ids: (element e, occurrence k) -> 1-based id
         let mut pid: HashMap<(usize, usize), usize> = HashMap::new();
         let mut pairs: Vec<(usize, usize)> = Vec::new();
